@@ -72,7 +72,8 @@ def rule_no_module_state(em, rep, rid, modules=None):
                         and x.value.id not in local_names(f) and any(isinstance(t, ast.Attribute) for t in x.targets):
                     bad.append((x, 'stores module-level object %s into an instance' % x.value.id))
                 if isinstance(x, ast.Call) and isinstance(x.func, ast.Name) and x.func.id == 'setattr' and x.args and \
-                        isinstance(x.args[0], ast.Name) and x.args[0].id not in local_names(f):
+                        isinstance(x.args[0], ast.Name) and x.args[0].id not in local_names(f) and x.args[0].id not in f.all_params and \
+                        x.args[0].id != 'self':
                     bad.append((x, 'setattr on a module-level object'))
             for x, why in bad:
                 rep.violation(rid, '%s:%s' % (f.qname, norm(x)), '%s: state shared by all engine/compiler instances in the process' % why, f.loc(x))
